@@ -41,6 +41,8 @@ PRELUDE = lambda: {"stages": [F.mk_stage("B", prints="", builtin="alias zq=1")],
 
 # regression sequences: the repaired defects (must pass) and the classes that remain
 REPLAYS = {
+    "captured-builtin-last-stage": lambda: [S([E(0), F.mk_stage("B", redirs=["2t9"], prints="e", builtin="alias zz_none")], cap=True),
+                                            S([E(0), F.mk_stage("B", redirs=["1t10"], prints="o", builtin="alias")], cap=True)],
     "builtin-lookahead-leak": lambda: [S([F.mk_stage("B", redirs=["1&2", "1t5"], prints="o", builtin="alias")])],
     "herestring-nonfirst": lambda: [S([E(0), E(1, True, frm="h")])],
     "herestring-reader-gone": lambda: [S([F.mk_stage("N", frm="h")]), S([E(0, frm="h", redirs=["1t31"])], unop=[31])],
@@ -89,6 +91,12 @@ def run_sequences(ctx, res, prop, seqs, label, strace=False, extra_fds=()):
         apply_verdict(res, prop, out, known, counters)
         if prop in ("C04", "ALL") or True:
             fb = F.check_files(out)
+            if out.get("lost_builtin_text") and prop == "C04":
+                if "captured-builtin-last-stage" in known:
+                    res.known("captured-builtin-last-stage", "class=captured-builtin-last-stage what=%s observed=file %s lacks the text of the builtin: %s" % (
+                        known["captured-builtin-last-stage"].get("what", "")[:90], out["lost_builtin_text"][0], out["line"][-160:]))
+                else:
+                    fb = fb + [(nm, "text of the builtin", "missing") for nm in out["lost_builtin_text"]]
             res.extra["files_compared"] = res.extra.get("files_compared", 0) + len(out.get("files_full", {}))
             if fb and prop == "C04":
                 if counters["viol"] < 4:
@@ -238,3 +246,23 @@ def capture_fail_runs(ctx, res, prop):
                                 observed=probs, model_shell_trace=mo["tr_shell"], failing_input=True,
                                 note="ulimit -n %d before a captured %d-stage pipeline: descriptors leak in the shell "
                                      "(pipe() call that fails: %s)" % (N, n, which))
+
+
+def captured_builtin_seqs(ctx):
+    """a builtin alone on its line (captured and not) x redirection shapes {none, openable file, unopenable file, 2>&1, 1>&2,
+    combinations}: each step is followed by the status / minfd / inheritance probes, and every leak is measured against the
+    state before the FIRST command of the sequence"""
+    shapes = [[], ["1t5"], ["1t31"], ["2t33"], ["1a6", "2t31"], ["2&1"], ["1&2"], ["1t5", "2&1"], ["2&1", "1t31"],
+              ["1&2", "1t5"], ["2t32"], ["1t30", "2&1"]]
+    builtins = ["alias", "cd /no_such_dir_zq", "alias zz_none", "minfd"]
+    seqs = []
+    for b in builtins:
+        for cap in (True, False):
+            steps = [PRELUDE()]
+            for rs in shapes:
+                if b == "minfd" and not cap and not any(r.startswith("1t") or r.startswith("1a") for r in rs):
+                    continue                      # an uncaptured, unredirected minfd would print into the minfd probe's stream
+                unop = set(int(r[2:]) for r in rs if r[1] != "&" and int(r[2:]) >= 30)
+                steps.append(S([F.mk_stage("B", redirs=rs, prints=F.BUILTINS[b][0], builtin=b)], cap=cap, unop=unop))
+            seqs.append(steps)
+    return seqs
